@@ -323,7 +323,7 @@ class StatementInserter(ast.NodeTransformer, EmitterMixin):
                                     ast.stmt,
                                     fast.If(
                                         test=fast.parse(
-                                            f'not ({name_error_exc}.name or "").startswith("{PYCCOLO_BUILTIN_PREFIX}")'
+                                            f'not ("%s" % ({name_error_exc}.name,)).startswith("{PYCCOLO_BUILTIN_PREFIX}")'
                                         )
                                         .body[0]
                                         .value,
